@@ -17,6 +17,7 @@
 -/
 import Gzx.Proofs.Image2D
 import Gzx.Proofs.Image2DBin
+import Gzx.Proofs.Image2DGlobal
 import Gzx.Properties.C14
 import Gzx.Properties.C02Full
 import Gzx.Properties.C06PureRead
@@ -80,14 +81,15 @@ theorem dm_extractPureBits_rendered (mw mh : Nat) (m : Nat → Nat → Bool) (re
     dm_extract_shows hs (reads_rdStrict _) hm.cols hm.rows hm.topLeft hm.track hm.bottomRight⟩
 
 /-- the same through the image → luminance → binariser steps: whenever the bitmap yields a black matrix, the
-    read-off is the module matrix; from 40x40 pixels up it always does -/
+    read-off is the module matrix; it always does from 40x40 pixels up (local method) and, below, whenever one of the
+    pixels the global method samples (rows `H·k/5`, k = 1..4, columns `W/5 .. 4W/5 − 1`) is white (`WhiteSample`) -/
 theorem dm_extractPureBits_binarised (mw mh : Nat) (m : Nat → Nat → Bool) (reqW reqH : Int)
     (hm : DMFinderFacts mw mh m) :
     ∃ img, renderDM mw mh m reqW reqH = .ok img ∧
       (blackMatrix img = .error .notFound ∨
         ∃ bm, blackMatrix img = .ok bm ∧
           DM.extractPureBits bm.rdGo bm = .ok { w := mw, h := mh, rows := matrixRows mw mh m }) ∧
-      (40 ≤ img.w → 40 ≤ img.h → ∃ bm, blackMatrix img = .ok bm ∧
+      (40 ≤ img.w ∧ 40 ≤ img.h ∨ WhiteSample img → ∃ bm, blackMatrix img = .ok bm ∧
           DM.extractPureBits bm.rdGo bm = .ok { w := mw, h := mh, rows := matrixRows mw mh m }) := by
   have hw1 : 1 ≤ mw := by have := hm.cols; omega
   obtain ⟨img, himg, ew, eh, hshow⟩ := renderDM_shows mw mh m reqW reqH hw1 hm.rows
@@ -105,9 +107,11 @@ theorem dm_extractPureBits_binarised (mw mh : Nat) (m : Nat → Nat → Bool) (r
   · rcases blackMatrix_any img hW hH with h | ⟨bm, hb, hs⟩
     · exact Or.inl h
     · exact Or.inr ⟨bm, hb, ext bm hs⟩
-  · intro h40w h40h
-    obtain ⟨bm, hb, hs⟩ := blackMatrix_local img h40w h40h
-    exact ⟨bm, hb, ext bm hs⟩
+  · rintro (⟨h40w, h40h⟩ | hwhite)
+    · obtain ⟨bm, hb, hs⟩ := blackMatrix_local img h40w h40h
+      exact ⟨bm, hb, ext bm hs⟩
+    · obtain ⟨bm, hb, hs⟩ := blackMatrix_white img hW hH hwhite
+      exact ⟨bm, hb, ext bm hs⟩
 
 /-! ## 2. the composed image round trip -/
 
@@ -148,9 +152,11 @@ def dmImageDecode (s : DMRef.Sym) (d : List Nat) (reqW reqH : Int) : Except Read
     look-ahead up to float rounding) → reference symbol of any of the 30 sizes → `convertByteMatrixToBitMatrix` with
     ANY requested width and height (both branches: scaled and centred / bare symbol) → image → luminances →
     `HybridBinarizer` → `DataMatrixReader.Decode(PURE_BARCODE)` (extractPureBits → `Decoder.Decode` model):
-      * returns exactly the text whenever the image is at least 40x40 pixels (local binariser);
-      * for smaller images (global histogram fallback) returns exactly the text or fails with the wrapped
-        NotFoundException of the binariser (ReaderException) — no other outcome, in particular never another text.
+      * returns exactly the text whenever the image is at least 40x40 pixels (local binariser), and for smaller images
+        (global histogram fallback) whenever one of the sampled pixels of the rendering is white (`WhiteSample`: what
+        the global method needs — and all it needs — on a pure black/white picture);
+      * in every case returns exactly the text or fails with the wrapped NotFoundException of the binariser
+        (ReaderException) — no other outcome, in particular never another text.
     Image size: `dmOut … reqW cols x dmOut … reqH rows` = the request when the symbol fits in both directions, the
     bare symbol otherwise. -/
 theorem dm_image_pure_roundtrip (syms : List DMHighLevel.SymbolInfo) (htab : DMHighLevel.tableOK syms = true)
@@ -158,6 +164,8 @@ theorem dm_image_pure_roundtrip (syms : List DMHighLevel.SymbolInfo) (htab : DMH
     (cw : List Nat) (hb : ∀ x ∈ msg, x < 256) (h : DMHighLevel.encodeHL syms la msg cfg = .ok cw)
     (p : DMRef.Sym × Nat) (hp : p ∈ DMRef.table7.zipIdx) (hn : cw.length = p.1.nData) (reqW reqH : Int) :
     (40 ≤ dmOut p.1.cols p.1.rows reqW reqH reqW p.1.cols → 40 ≤ dmOut p.1.cols p.1.rows reqW reqH reqH p.1.rows →
+      dmImageDecode p.1 cw reqW reqH = .ok msg) ∧
+    ((∀ img, renderDM p.1.cols p.1.rows (refModule p.1 cw) reqW reqH = .ok img → WhiteSample img) →
       dmImageDecode p.1 cw reqW reqH = .ok msg) ∧
     (dmImageDecode p.1 cw reqW reqH = .ok msg ∨ dmImageDecode p.1 cw reqW reqH = .error (.reader .notFound)) := by
   have hsym := C02.dm_symbol_roundtrip syms htab la hla msg cfg cw hb h p hp hn
@@ -180,9 +188,12 @@ theorem dm_image_pure_roundtrip (syms : List DMHighLevel.SymbolInfo) (htab : DMH
     unfold dmImageDecode dmImagePath
     rw [himg]
     simp only [dmRead, hbm, hex, hdec]
-  refine ⟨?_, ?_⟩
+  refine ⟨?_, ?_, ?_⟩
   · intro h1 h2
-    obtain ⟨bm, hbm, hex⟩ := hbig (by rw [ew]; exact h1) (by rw [eh]; exact h2)
+    obtain ⟨bm, hbm, hex⟩ := hbig (Or.inl ⟨by rw [ew]; exact h1, by rw [eh]; exact h2⟩)
+    exact ok_of bm hbm hex
+  · intro hwhite
+    obtain ⟨bm, hbm, hex⟩ := hbig (Or.inr (hwhite img himg))
     exact ok_of bm hbm hex
   · rcases hany with hnf | ⟨bm, hbm, hex⟩
     · right
@@ -210,5 +221,10 @@ example : (renderDM 4 3 toy 2 9).toOption.map (fun img => DM.extractPureBits (bi
 example : (renderDM 4 3 (fun i j => toy i j || (i == 1 && j == 0)) 0 0).toOption.map
       (fun img => (DM.extractPureBits (bitImage img).rdGo (bitImage img)).toOption.map (fun b => (b.w, b.h))) =
     some (some (1, 1)) := by decide +kernel
+
+/-- the white-sample condition holds of the 4x3 toy at 13x8 (rows 1, 3, 4, 6; columns 2..9) … -/
+example : (renderDM 4 3 toy 13 8).toOption.map (fun img => img.px 4 1) = some false := by decide
+/-- … and is needed: a picture whose sampled pixels are all black is refused by the global method (NotFound) -/
+example : Binarizer.hybridSets (lumOfRows (List.replicate 5 (List.replicate 5 true))) 5 5 = .error .notFound := by decide +kernel
 
 end Gzx.Properties.C02Image
